@@ -229,8 +229,9 @@ CHECKS = {
         "technique": "property-based testing (rapid) of generated timelines in testing/synctest bubbles; run-log invariants",
         "rule": ("plans: 1-5 registrations, 0-12 trigger events, one stop; non-trivial = a trigger call landed while its function was running, or a registration raced with the stop; distinct = distinct plan JSON; R=3/10"),
         "assumptions": ["testing/synctest", "rapid v1.3.0; go1.26.8"],
-        "jobs": [{"pkg": "c17group", "kinds": ["group", "stop-storm"], "scale_thorough": 10, "shards_thorough": 16, "replay_reps": 30},
-                 {"pkg": "c17group", "race": True, "kinds": ["group", "stop-storm"], "scale_quick": 0.15, "scale_thorough": 2, "shards_thorough": 4, "replay_reps": 20}],
+        "jobs": [{"pkg": "c17old", "kinds": ["pot-old-timers"], "scale_thorough": 4, "shards_thorough": 4},
+                 {"pkg": "c17group", "kinds": ["group", "stop-storm", "trigger-first-call"], "scale_thorough": 10, "shards_thorough": 16, "replay_reps": 30},
+                 {"pkg": "c17group", "race": True, "kinds": ["group", "stop-storm", "trigger-first-call"], "scale_quick": 0.15, "scale_thorough": 2, "shards_thorough": 4, "replay_reps": 20}],
     },
     "C19": {
         "level": "exploration",
